@@ -160,7 +160,8 @@ theorem aggregate_shortcuts (K : Keys) (t : Tx) :
 the union of the operands' kernels; inputs / outputs are the unions minus exactly the matched spend
 pairs (truncated multiset difference per commitment; element-wise for outputs when no two
 outputs share a commitment); everything in hash order; the offset is the sum of the operands'
-non-zero offsets modulo the group order. -/
+offsets modulo the group order (`to_secrets` drops zero offsets and byte strings that are not
+scalars) — also when that sum is zero. -/
 theorem aggregate_spec {K : Keys} {txs : List Tx} {t : Tx} (h2 : 2 ≤ txs.length)
     (h : aggregate K txs = .ok t) :
     t.v2 = false ∧
@@ -183,7 +184,7 @@ theorem aggregate_spec {K : Keys} {txs : List Tx} {t : Tx} (h2 : 2 ≤ txs.lengt
   · rw [hi]; exact sortBy_sorted _ _
   · rw [hout]; exact sortBy_sorted _ _
   · rw [hk]; exact sortBy_sorted _ _
-  · exact (sumKernelOffsets_ok ho).2.1
+  · exact (sumKernelOffsets_ok ho).2
 
 /-- … in particular, for operands whose offsets are valid scalars the offset of the aggregate is
 the sum of the offsets (mod n). -/
@@ -192,16 +193,37 @@ theorem aggregate_offset_sum {K : Keys} {txs : List Tx} {t : Tx} (h2 : 2 ≤ txs
     t.offset = (allOffs txs).sum % N := by
   rw [(aggregate_spec h2 h).2.2.2.2.2.2.2.2, toSecrets_sum_of_lt hlt]
 
+/-- **offsets that cancel give the zero offset**: operands whose offsets are valid scalars summing
+to zero modulo the group order (e.g. `x` and `n − x`) aggregate to a transaction with offset 0.
+(Before the repair of `sum_kernel_offsets` the code refused them with `Secp(InvalidSecretKey)`.) -/
+theorem aggregate_offsets_cancel {K : Keys} {txs : List Tx} {t : Tx} (h2 : 2 ≤ txs.length)
+    (h : aggregate K txs = .ok t) (hlt : ∀ x ∈ allOffs txs, x < N) (hz : (allOffs txs).sum % N = 0) :
+    t.offset = 0 := by
+  rw [aggregate_offset_sum h2 h hlt, hz]
+
+/-- **the only error of `aggregate` is `CutThrough`**: no operand list, whatever its offsets,
+makes the offset sum fail. -/
+theorem aggregate_error_cutThrough {K : Keys} {txs : List Tx} {e : Err} (h : aggregate K txs = .error e) :
+    e = .cutThrough := by
+  match txs, h with
+  | [], h => cases h
+  | [_], h => cases h
+  | a :: b :: l, h =>
+    rw [aggregate_of_two_le K (by simp), aggregateFull_eq, sumKernelOffsets_nil] at h
+    split at h
+    · cases h; rfl
+    · split at h
+      · cases h; rfl
+      · cases h
+
 /-- **when does `aggregate` fail** (two or more operands, injective hash orders, no two outputs
 sharing a commitment): exactly when an input is left over twice after cut-through (double
-spend), an output is left over twice, or the non-zero offsets sum to zero modulo the group order
-(the code then gets a zero scalar from `blind_sum`, which is not a valid secret key). -/
+spend) or an output is left over twice. The offsets play no role. -/
 theorem aggregate_error_iff {K : Keys} {txs : List Tx} (h2 : 2 ≤ txs.length) (kinj : KInj K)
     (ic : InjOn outCommit (allOuts txs)) :
     (∃ e, aggregate K txs = .error e) ↔
       (∃ x, 2 ≤ (allIns K txs).count x - ((allOuts txs).map outCommit).count x) ∨
-      (∃ o, 2 ≤ (allOuts txs).count o - (allIns K txs).count (outCommit o)) ∨
-      (toSecrets (allOffs txs) ≠ [] ∧ (toSecrets (allOffs txs)).sum % N = 0) := by
+      (∃ o, 2 ≤ (allOuts txs).count o - (allIns K txs).count (outCommit o)) := by
   have ce := cutThrough_error_iff (ka := K.ik) (kb := K.ok) (kinj.ik (allIns K txs)) (kinj.ok (allOuts txs)) ic
   rw [aggregate_of_two_le K h2]
   have unfold : aggregateFull K txs =
@@ -210,16 +232,72 @@ theorem aggregate_error_iff {K : Keys} {txs : List Tx} (h2 : 2 ≤ txs.length) (
       | .ok r => match sumKernelOffsets (allOffs txs) [] with
         | .error e => .error e
         | .ok off => .ok ⟨off, false, sortBy K.ik r.ins, sortBy K.ok r.outs, sortBy K.kk (allKers txs)⟩ := rfl
-  rw [unfold, ← or_assoc, ← ce]
+  rw [unfold, ← ce]
   rcases hc : cutThrough id outCommit K.ik K.ok (allIns K txs) (allOuts txs) with e | r
   · simp
-  · simp only [reduceCtorEq, exists_false, false_or]
-    rw [sumKernelOffsets_nil]
-    by_cases e : toSecrets (allOffs txs) = []
-    · simp [e]
-    · by_cases z : (toSecrets (allOffs txs)).sum % N = 0
-      · simp [e, z]
-      · simp [e, z]
+  · simp [sumKernelOffsets_nil]
+
+/-- **aggregating conflict-free transactions always succeeds**: if after removing the matched spend
+pairs no input and no output is left over twice, `aggregate` returns a transaction — for every
+choice of offsets, including offsets that cancel. -/
+theorem aggregate_succeeds {K : Keys} {txs : List Tx} (kinj : KInj K)
+    (ic : InjOn outCommit (allOuts txs))
+    (hI : ∀ x, (allIns K txs).count x - ((allOuts txs).map outCommit).count x ≤ 1)
+    (hO : ∀ o, (allOuts txs).count o - (allIns K txs).count (outCommit o) ≤ 1) :
+    ∃ t, aggregate K txs = .ok t := by
+  match txs, ic, hI, hO with
+  | [], _, _, _ => exact ⟨_, rfl⟩
+  | [t], _, _, _ => exact ⟨_, rfl⟩
+  | a :: b :: l, ic, hI, hO =>
+    rcases h : aggregate K (a :: b :: l) with e | t
+    · rcases (aggregate_error_iff (by simp) kinj ic).1 ⟨e, h⟩ with ⟨x, hx⟩ | ⟨o, ho⟩
+      · have := hI x; omega
+      · have := hO o; omega
+    · exact ⟨t, rfl⟩
+
+/-- **the aggregate of valid transactions is (structurally) valid**: whenever two or more
+coinbase-free transactions with pairwise different kernels aggregate — i.e. whenever they are
+conflict-free, `aggregate_succeeds`; the offsets play no role — the result passes
+`Transaction::validate_read`: inputs, outputs and kernels in hash order and duplicate-free, no input
+spending an output of the same transaction (`verify_cut_through`), no coinbase output or kernel.
+(The cryptographic part of `validate()` — range proofs, signatures, kernel sums — is evaluated on
+the real code by the harness; its arithmetic core is `cutThrough_balance`.) -/
+theorem aggregate_valid {K : Keys} {txs : List Tx} {t : Tx} (h2 : 2 ≤ txs.length) (kinj : KInj K)
+    (hp : ∀ t ∈ txs, Plain t) (ndK : (allKers txs).Nodup) (h : aggregate K txs = .ok t) :
+    validateRead K t = none := by
+  rw [aggregate_of_two_le K h2] at h
+  obtain ⟨d1, d2, _, hv, hi, hout, hk⟩ := aggregateFull_ok h
+  have hc := aggregateFull_counts h
+  have ndMI := (adjDup_sortBy (kinj.ik (merged id outCommit (allIns K txs) (allOuts txs)).ins)).1 d1
+  have ndMO := (adjDup_sortBy (kinj.ok (merged id outCommit (allIns K txs) (allOuts txs)).outs)).1 d2
+  have ndI : t.inputs.Nodup := by rw [hi]; exact (sortBy_perm _ _).nodup_iff.2 ndMI
+  have ndO : t.outputs.Nodup := by rw [hout]; exact (sortBy_perm _ _).nodup_iff.2 ndMO
+  have subO : ∀ o ∈ t.outputs, o ∈ allOuts txs := fun o ho => by
+    rw [hout, mem_sortBy] at ho; exact mem_merged_outs ho
+  have plO : ∀ o ∈ t.outputs, isCoinbase o = false := fun o ho => plain_allOuts hp o (subO o ho)
+  have plK : ∀ k ∈ t.kernels, isCoinbase k = false := fun k hk' => by
+    rw [hk, mem_sortBy] at hk'; exact plain_allKers hp k hk'
+  have sI : sortedUnique K.ik t.inputs = none := by rw [hi]; exact sortedUnique_none (sortBy_sorted _ _) d1
+  have sO : sortedUnique K.ok t.outputs = none := by rw [hout]; exact sortedUnique_none (sortBy_sorted _ _) d2
+  have sK : sortedUnique K.kk t.kernels = none := by
+    rw [hk]; exact sortedUnique_none (sortBy_sorted _ _) ((adjDup_sortBy (kinj.kk _)).2 ndK)
+  have vC : verifyCutThrough t = none := by
+    have nd : (t.inputs ++ t.outputs.map outCommit).Nodup := by
+      rw [nodup_iff_count]
+      intro c
+      have h1 := (hc c).1
+      have h2' := (hc c).2
+      rw [Tx.inputsCO_of_not_v2 K hv] at h1
+      have b1 := nodup_iff_count.1 ndI c
+      have b2 := count_map_le_one (injOn_outCommit_of_plain plO) ndO c
+      rw [count_append]
+      omega
+    simp only [verifyCutThrough, (adjDup_sortBy (injOn_id _)).2 nd, Bool.false_eq_true, if_false]
+  have fO : t.outputs.any isCoinbase = false := by
+    rw [any_eq_false]; intro o ho; simp [plO o ho]
+  have fK : t.kernels.any isCoinbase = false := by
+    rw [any_eq_false]; intro k hk'; simp [plK k hk']
+  simp only [validateRead, sI, sO, sK, vC, fO, fK, Bool.false_eq_true, if_false]
 
 /-- **order independence**: any permutation of the operands gives the same result (same
 transaction or same error). -/
@@ -324,19 +402,33 @@ theorem hydrate_roundtrip {K : Keys} {txs : List Tx} {groups : List (List Tx)} {
   simp only at e5
   simp [e5]
 
+/-- **building the block never fails on the offsets**: whenever the transactions aggregate,
+`from_reward` returns a block (whatever the previous header's total offset is, also when it cancels
+the aggregate's offset), and that block survives compact → hydrate in every grouping and with every
+nonce. -/
+theorem hydrate_roundtrip_total {K : Keys} {txs : List Tx} {groups : List (List Tx)} {ts : List Tx}
+    {rout rkern prev nonce : Nat} {agg : Tx} (kinj : KInj K)
+    (hn : ∀ t ∈ txs, Normal K t) (hp : ∀ t ∈ txs, Plain t)
+    (hro : isCoinbase rout = true) (hrk : isCoinbase rkern = true)
+    (ha : aggregate K txs = .ok agg)
+    (hperm : groups.flatten ~ txs)
+    (hg : AllRel (fun g t => aggregate K g = .ok t) groups ts) :
+    ∃ b, fromReward K prev txs rout rkern = .ok b ∧ hydrateFrom K (compact K nonce b) ts = .ok b :=
+  ⟨_, fromReward_of_aggregate ha,
+    hydrate_roundtrip kinj hn hp hro hrk (fromReward_of_aggregate ha) hperm hg⟩
+
 /-! ## de-aggregation -/
 
 /-- **de-aggregation returns the remainder**: let `A` (the known subset) and `B` (the remainder)
 be normal transactions that share nothing and do not spend each other's outputs, `mk` their
-aggregate. Then `deaggregate mk A` is `aggregate B` — **provided** the remainder's offset is
-non-zero modulo the group order, or all offsets involved are zero. Without that side condition
-the code fails: `deaggregate_zero_remainder_fails`. -/
+aggregate. Then `deaggregate mk A` is `aggregate B` — for all offsets, in particular also when the
+remainder's offset is zero modulo the group order (`mk.offset = a.offset`), see
+`deaggregate_zero_remainder`. -/
 theorem deaggregate_inverse {K : Keys} {A B : List Tx} {mk a : Tx} (kinj : KInj K)
     (hn : ∀ t ∈ A ++ B, Normal K t)
     (ndI : (allIns K (A ++ B)).Nodup) (ndO : (allOuts (A ++ B)).Nodup) (ndK : (allKers (A ++ B)).Nodup)
     (hdis : ∀ x ∈ allIns K (A ++ B), x ∉ (allOuts (A ++ B)).map outCommit)
-    (hmk : aggregate K (A ++ B) = .ok mk) (hA : aggregate K A = .ok a)
-    (hoff : (toSecrets (allOffs B)).sum % N ≠ 0 ∨ (mk.offset = 0 ∧ a.offset = 0)) :
+    (hmk : aggregate K (A ++ B) = .ok mk) (hA : aggregate K A = .ok a) :
     deaggregate K mk A = aggregate K B := by
   have hnA : ∀ t ∈ A, Normal K t := fun t ht => hn t (mem_append_left _ ht)
   have hnB : ∀ t ∈ B, Normal K t := fun t ht => hn t (mem_append_right _ ht)
@@ -358,21 +450,13 @@ theorem deaggregate_inverse {K : Keys} {A B : List Tx} {mk a : Tx} (kinj : KInj 
   have eB := aggregate_disjoint kinj hnB ndIB ndOB disB
   rw [hmk] at eAB
   rw [hA] at eA
-  rcases hsAB : sumKernelOffsets (allOffs (A ++ B)) [] with e | moff
-  · rw [hsAB] at eAB; cases eAB
-  rcases hsA : sumKernelOffsets (allOffs A) [] with e | aoff
-  · rw [hsA] at eA; cases eA
-  rw [hsAB] at eAB
-  rw [hsA] at eA
   simp only [Except.ok.injEq] at eAB eA
   subst eAB eA
-  simp only at hoff
   -- offsets
-  obtain ⟨_, hm, hm0⟩ := sumKernelOffsets_ok hsAB
-  obtain ⟨_, ha, _⟩ := sumKernelOffsets_ok hsA
-  rw [allOffs_append, toSecrets_append, sum_append] at hm
-  rw [allOffs_append, toSecrets_append, append_eq_nil_iff] at hm0
-  have hoffset := deagg_offset moff aoff _ _ hm ha
+  have hm : (toSecrets (allOffs (A ++ B))).sum % N =
+      ((toSecrets (allOffs A)).sum + (toSecrets (allOffs B)).sum) % N := by
+    rw [allOffs_append, toSecrets_append, sum_append]
+  have hoffset := deagg_offset _ _ _ _ hm rfl
   -- the body
   unfold deaggregate
   rw [hA]
@@ -385,27 +469,24 @@ theorem deaggregate_inverse {K : Keys} {A B : List Tx} {mk a : Tx} (kinj : KInj 
   have fI := filter_remove_left ndI (sortBy_perm K.ik (allIns K A ++ allIns K B)) (sortBy_perm K.ik (allIns K A))
   have fO := filter_remove_left ndO (sortBy_perm K.ok (allOuts A ++ allOuts B)) (sortBy_perm K.ok (allOuts A))
   have fK := filter_remove_left ndK (sortBy_perm K.kk (allKers A ++ allKers B)) (sortBy_perm K.kk (allKers A))
-  rw [sortBy_congr (kinj.ik _) fI, sortBy_congr (kinj.ok _) fO, sortBy_congr (kinj.kk _) fK, hoffset, eB,
-    sumKernelOffsets_nil]
-  rcases hoff with hnz | ⟨m0, a0⟩
-  · have hne : toSecrets (allOffs B) ≠ [] := fun e => by rw [e] at hnz; simp at hnz
-    have hnot : ¬ (moff = 0 ∧ aoff = 0) := fun ⟨m0, _⟩ => hne (hm0.1 m0).2
-    simp only [hnot, hnz, hne, if_false]
-  · have he : toSecrets (allOffs B) = [] := (hm0.1 m0).2
-    simp only [m0, a0, and_self, if_true, he]
+  rw [sortBy_congr (kinj.ik _) fI, sortBy_congr (kinj.ok _) fO, sortBy_congr (kinj.kk _) fK, hoffset, eB]
 
-/-- **the side condition is necessary**: whenever the remainder's offset is zero modulo the group
-order while the known subset's offset is not, `deaggregate` fails with a secp error (the two
-operands of `blind_sum` cancel and zero is not a valid secret key) although the remainder is a
-perfectly good transaction. -/
-theorem deaggregate_zero_remainder_fails {K : Keys} {A B : List Tx} {mk a : Tx} (kinj : KInj K)
+/-- **a remainder with zero offset is returned like any other** (the positive counterpart of the
+former failure): whenever the remainder's offsets sum to zero modulo the group order — so that the
+aggregate and the known subset carry the *same* offset — `deaggregate` succeeds and returns the
+remainder, whose offset is zero. (Before the repair the code failed here with
+`Secp(InvalidSecretKey)`.) -/
+theorem deaggregate_zero_remainder {K : Keys} {A B : List Tx} {mk a : Tx} (kinj : KInj K)
     (hn : ∀ t ∈ A ++ B, Normal K t)
-    (ndI : (allIns K (A ++ B)).Nodup) (ndO : (allOuts (A ++ B)).Nodup)
+    (ndI : (allIns K (A ++ B)).Nodup) (ndO : (allOuts (A ++ B)).Nodup) (ndK : (allKers (A ++ B)).Nodup)
     (hdis : ∀ x ∈ allIns K (A ++ B), x ∉ (allOuts (A ++ B)).map outCommit)
     (hmk : aggregate K (A ++ B) = .ok mk) (hA : aggregate K A = .ok a)
-    (hzero : (toSecrets (allOffs B)).sum % N = 0) (hnz : a.offset ≠ 0) :
-    deaggregate K mk A = .error .secp := by
+    (hzero : (toSecrets (allOffs B)).sum % N = 0) :
+    mk.offset = a.offset ∧
+    ∃ t, deaggregate K mk A = .ok t ∧ aggregate K B = .ok t ∧ t.offset = 0 := by
   have hnA : ∀ t ∈ A, Normal K t := fun t ht => hn t (mem_append_left _ ht)
+  have hnB : ∀ t ∈ B, Normal K t := fun t ht => hn t (mem_append_right _ ht)
+  have hinv := deaggregate_inverse kinj hn ndI ndO ndK hdis hmk hA
   have ndI' := ndI
   have ndO' := ndO
   have hdis' := hdis
@@ -413,28 +494,30 @@ theorem deaggregate_zero_remainder_fails {K : Keys} {A B : List Tx} {mk a : Tx} 
   rw [allOuts_append] at ndO' hdis'
   have disA : ∀ x ∈ allIns K A, x ∉ (allOuts A).map outCommit := fun x hx hm =>
     hdis' x (mem_append_left _ hx) (by rw [map_append]; exact mem_append_left _ hm)
+  have disB : ∀ x ∈ allIns K B, x ∉ (allOuts B).map outCommit := fun x hx hm =>
+    hdis' x (mem_append_right _ hx) (by rw [map_append]; exact mem_append_right _ hm)
   have eAB := aggregate_disjoint kinj hn ndI ndO hdis
   have eA := aggregate_disjoint kinj hnA (nodup_append.1 ndI').1 (nodup_append.1 ndO').1 disA
+  have eB := aggregate_disjoint kinj hnB (nodup_append.1 ndI').2.1 (nodup_append.1 ndO').2.1 disB
   rw [hmk] at eAB
   rw [hA] at eA
-  rcases hsAB : sumKernelOffsets (allOffs (A ++ B)) [] with e | moff
-  · rw [hsAB] at eAB; cases eAB
-  rcases hsA : sumKernelOffsets (allOffs A) [] with e | aoff
-  · rw [hsA] at eA; cases eA
-  rw [hsAB] at eAB
-  rw [hsA] at eA
   simp only [Except.ok.injEq] at eAB eA
   subst eAB eA
-  simp only at hnz
-  obtain ⟨_, hm, _⟩ := sumKernelOffsets_ok hsAB
-  obtain ⟨_, ha, _⟩ := sumKernelOffsets_ok hsA
-  rw [allOffs_append, toSecrets_append, sum_append] at hm
-  have hoffset := deagg_offset moff aoff _ _ hm ha
-  unfold deaggregate
-  rw [hA]
-  simp only [hoffset]
-  have hnot : ¬ (moff = 0 ∧ aoff = 0) := fun ⟨_, a0⟩ => hnz a0
-  simp only [hnot, hzero, if_false, if_true]
+  refine ⟨?_, _, hinv.trans eB, eB, hzero⟩
+  show (toSecrets (allOffs (A ++ B))).sum % N = (toSecrets (allOffs A)).sum % N
+  rw [allOffs_append, toSecrets_append, sum_append, Nat.add_mod, hzero, Nat.add_zero, Nat.mod_mod]
+
+/-- … in particular de-aggregating **everything** gives the empty transaction (offset zero). -/
+theorem deaggregate_all {K : Keys} {A : List Tx} {mk : Tx} (kinj : KInj K)
+    (hn : ∀ t ∈ A, Normal K t)
+    (ndI : (allIns K A).Nodup) (ndO : (allOuts A).Nodup) (ndK : (allKers A).Nodup)
+    (hdis : ∀ x ∈ allIns K A, x ∉ (allOuts A).map outCommit)
+    (hmk : aggregate K A = .ok mk) :
+    deaggregate K mk A = .ok Tx.empty := by
+  have h := deaggregate_inverse (K := K) (A := A) (B := []) (mk := mk) (a := mk) kinj
+    (by simpa using hn) (by simpa using ndI) (by simpa using ndO) (by simpa using ndK)
+    (by simpa using hdis) (by simpa using hmk) hmk
+  exact h
 
 /-! ## normal form = structurally valid, and concrete witnesses (non-vacuity) -/
 
@@ -449,12 +532,11 @@ theorem normal_of_wf {K : Keys} {t : Tx} (kinj : KInj K) (h : WF K t) : Normal K
   rw [aggregateFull_disjoint (kinj.ik _) (kinj.ok _) (by rw [hi]; exact h.insNodup) (by rw [ho]; exact h.outsNodup)
     (by rw [hi, ho]; exact h.noSelfSpend)]
   rw [hi, ho, hk, hf, sortBy_of_sorted h.insSorted, sortBy_of_sorted h.outsSorted, sortBy_of_sorted h.kersSorted,
-    sumKernelOffsets_nil, toSecrets_singleton_of_lt h.offset]
+    toSecrets_singleton_of_lt h.offset]
   have hv := h.v2
   by_cases z : t.offset = 0
   · cases t; simp only at z hv; subst z hv; simp
-  · have : t.offset % N ≠ 0 := by rw [Nat.mod_eq_of_lt h.offset]; exact z
-    cases t; simp only at z hv this; subst hv
+  · cases t; simp only at z hv; subst hv
     simp [z, Nat.mod_eq_of_lt h.offset]
 
 -- `WF` (hence `Normal`) is satisfiable
@@ -462,6 +544,16 @@ example : WF K0 t2 := by constructor <;> simp [t2, K0, KeyLe, N, outCommit]
 
 /-- chained pair: output 5 of `t1` is spent by `t2` and disappears from both sides -/
 example : aggregate K0 [t1, t2] = .ok ⟨3, false, [1], [12], [0, 2]⟩ := by tx_eval
+/-- hypotheses of `aggregate_valid` are satisfiable (`[t1, t2]`: plain, kernels 0 and 2), and
+the conclusion on the concrete aggregate -/
+example : (∀ t ∈ [t1, t2], Plain t) ∧ (allKers [t1, t2]).Nodup := by
+  refine ⟨?_, by simp [allKers, t1, t2]⟩
+  intro t ht
+  simp only [mem_cons, not_mem_nil, or_false] at ht
+  rcases ht with rfl | rfl <;> simp [Plain, t1, t2, isCoinbase]
+example : validateRead K0 ⟨3, false, [1], [12], [0, 2]⟩ = none := by
+  simp [validateRead, sortedUnique, verifyCutThrough, adjDup, sortBy, K0, outCommit, isCoinbase, List.mergeSort,
+    List.MergeSort.Internal.splitInTwo]
 
 /-- **the hypothesis "every group aggregates" of `aggregate_assoc` is needed**: `t2` and `t3`
 double-spend commitment 5. All at once, `t1` creates it, one spend is cut and the aggregate
@@ -489,22 +581,34 @@ code 101 and reward kernel code 7, previous offset 9 -/
 example : fromReward K0 9 [t1, t2] 101 7 = .ok ⟨12, false, [1], [12, 101], [0, 2, 7]⟩ := by tx_eval
 example : hydrateFrom K0 (compact K0 77 ⟨12, false, [1], [12, 101], [0, 2, 7]⟩) [t2, t1] =
     .ok ⟨12, false, [1], [12, 101], [0, 2, 7]⟩ := by tx_eval
+/-- the previous header's offset `N - 3` cancels the aggregate's offset 3: the block is built, with
+total offset zero -/
+example : fromReward K0 (N - 3) [t1, t2] 101 7 = .ok ⟨0, false, [1], [12, 101], [0, 2, 7]⟩ := by tx_eval
 
 /-- hypotheses of `deaggregate_inverse` are satisfiable: `deaggregate (aggregate [t1, t5]) [t1]`
 is `t5` (remainder offset `N - 2 ≠ 0`) -/
 example : aggregate K0 [t1, t5] = .ok ⟨N - 1, false, [1, 30], [10, 64], [0, 8]⟩ := by tx_eval
 example : deaggregate K0 ⟨N - 1, false, [1, 30], [10, 64], [0, 8]⟩ [t1] = .ok t5 := by tx_eval
 
-/-- the zero-remainder-offset failure on a concrete pair: the remainder `t4` has offset zero -/
+/-- hypotheses of `deaggregate_zero_remainder` are satisfiable: the remainder `t4` has offset zero,
+aggregate and known subset both carry offset 1; the remainder comes back (this concrete call
+failed with `Secp` before the repair) -/
 example : aggregate K0 [t1, t4] = .ok ⟨1, false, [1, 20], [10, 44], [0, 6]⟩ := by tx_eval
-example : deaggregate K0 ⟨1, false, [1, 20], [10, 44], [0, 6]⟩ [t1] = .error .secp := by tx_eval
+example : deaggregate K0 ⟨1, false, [1, 20], [10, 44], [0, 6]⟩ [t1] = .ok t4 := by tx_eval
 example : deaggregate K0 ⟨1, false, [1, 20], [10, 44], [0, 6]⟩ [t4] = .ok t1 := by tx_eval
+/-- de-aggregating everything: the empty transaction -/
+example : deaggregate K0 ⟨1, false, [1, 20], [10, 44], [0, 6]⟩ [t4, t1] = .ok Tx.empty := by tx_eval
 
 /-- offsets that cancel modulo the group order: `2 + (N - 2) ≡ 0`, both transactions are fine on
-their own, the aggregate is refused -/
-theorem offsets_cancel_refused : aggregate K0 [t1, t5] ≠ .error .secp ∧
-    aggregate K0 [⟨2, false, [40], [84], [10]⟩, t5] = .error .secp := by
-  constructor
+their own, the aggregate is the union with offset zero (hypotheses of `aggregate_offsets_cancel`
+are satisfiable; this concrete call failed with `Secp` before the repair), and it de-aggregates
+again into its parts -/
+theorem offsets_cancel_accepted :
+    aggregate K0 [⟨2, false, [40], [84], [10]⟩, t5] = .ok ⟨0, false, [30, 40], [64, 84], [8, 10]⟩ ∧
+    deaggregate K0 ⟨0, false, [30, 40], [64, 84], [8, 10]⟩ [t5] = .ok ⟨2, false, [40], [84], [10]⟩ ∧
+    deaggregate K0 ⟨0, false, [30, 40], [64, 84], [8, 10]⟩ [⟨2, false, [40], [84], [10]⟩] = .ok t5 := by
+  refine ⟨?_, ?_, ?_⟩
+  · tx_eval
   · tx_eval
   · tx_eval
 end GV.Props.C12
